@@ -2,6 +2,7 @@
 nothing global is modified; the chunk owns deep copies."""
 from __future__ import annotations
 
+from sa.anchors import is_helper
 from sa import terms as T
 from sa.effects import PRMS_GLOBAL
 from sa.rules.common import effects
@@ -40,6 +41,10 @@ def no_borrowed_mutation(ctx, rule: str, modules, floor: int) -> None:
     n = 0
     for q, f in sorted(p.funcs.items()):
         if f.module.name not in modules or not _public(f):
+            continue
+        if is_helper(p, q):
+            # not a documented entry point: an internal helper may well work in place on what it is handed; its
+            # effect is attributed to its callers (mutation summaries), where the rule applies to what THEY were given
             continue
         n += 1
         ctx.saw(f)
